@@ -261,6 +261,14 @@ def writer_rules(ck):
             ck.ob('PROV-open-tmp', fw.loc(call), origin <= {'tmp_path', 'mode', 'args', 'kwargs'} and 'tmp_path' in origin,
                   're-opening an already deferred path opens its temporary file (`{}`)'.format(u(call)[:50]), key='PROV-open-tmp')
     ck.ob('DT-open-destination', fw.loc(opn), nd == 1, 'exactly one site opens the destination path itself ({} found)'.format(nd), key='DT-open-destination|count')
+    # destination identity: the path as named, made absolute without following a symlink in its last component
+    pdefs = assignments_to(opn, 'path')
+    res = [c for c in walk_local(opn) if isinstance(c, ast.Call) and (call_attr(c) in ('resolve', 'absolute') or call_name(c) in ('os.path.realpath', 'os.path.abspath'))]
+    ok = len(pdefs) == 2 and u(pdefs[0]) == 'pathlib.Path({})'.format(filename) and u(pdefs[1]) == 'path.parent.resolve() / path.name' and \
+        all(u(c) == 'path.parent.resolve()' for c in res if call_attr(c) == 'resolve') and not [c for c in res if call_name(c) == 'os.path.realpath']
+    ck.ob('PROV-destination-identity', fw.loc(opn), ok,
+          'a destination is identified by its own name in its (resolved) directory: only the parent is resolved, so a symlinked destination is not replaced by its target '
+          '({})'.format([u(d) for d in pdefs]), key='PROV-destination-identity')
     tcalls = calls_with_env(opn, lambda c: call_attr(c) == '_open_tmp_file')
     ok = len(tcalls) == 1
     if ok:
@@ -421,34 +429,46 @@ def cli_gate(ck):
         return
     call = mine[0][3]
     # reaching condition relative to the statement that computes the leftover count (the tail of entry())
-    start = 0
+    start = None
     for i, st in enumerate(ent.body):
         if 'ignore_warnings_and_count' in u(st):
             start = i
             break
+    ck.ob('MPT-gate', cli.loc(ent), start is not None and isinstance(ent.body[start], ast.Assign) and
+          u(ent.body[start].value) == 'ignore_warnings_and_count(COUNTER, args.maxwarn)' if start is not None else False,
+          'entry() computes the leftover warnings as ignore_warnings_and_count(COUNTER, args.maxwarn)', key='MPT-gate|count')
+    if start is None:
+        return
     tail = ent.body[start:]
+    left_txt = u(ent.body[start].value)
+
+    def norm(cond):
+        """all ways of asking 'are there leftover warnings' become one atom LEFT"""
+        m = {}
+        for k in flow.atoms_of(cond):
+            if k[0] == 'truth' and k[1] == left_txt:
+                m[k] = 'LEFT'
+            elif k[0] == 'Gt' and k[1] == left_txt and k[2] == '0':
+                m[k] = 'LEFT'
+            elif k[0] == 'Eq' and set(k[1:]) == {left_txt, '0'}:
+                m[k] = flow.NOT(('atom', 'LEFT'))
+        return flow.rename(cond, m)
     found = calls_with_env(ent, lambda c: c is call, stmts=tail)
-    cond = found[0][2]
-    env = found[0][3]
-    atoms = list(flow.atoms_of(cond))
-    gate = [k for k in atoms if 'ignore_warnings_and_count' in ' '.join(map(str, k))]
-    ok = len(gate) == 1 and gate[0][0] == 'truth' and flow.implies(cond, flow.NOT(('atom', gate[0])))[0]
-    gate_txt = gate[0][1] if gate else '?'
-    ck.ob('MPT-gate', cli.loc(call), ok and gate_txt == 'ignore_warnings_and_count(COUNTER, args.maxwarn)',
-          'finalisation is reachable only when `{}` is zero'.format(gate_txt), key='MPT-gate|dominated')
-    # the other edge exits non-zero before any return
+    cond = norm(found[0][2])
+    ok, _c, _r = flow.implies(cond, flow.parse_formula('not LEFT'))
+    ck.ob('MPT-gate', cli.loc(call), ok and flow.atoms_of(cond) == {'LEFT'}, 'finalisation is reachable only when the leftover count is zero (condition {})'.format(flow.show(cond)[:80]),
+          key='MPT-gate|dominated')
     exits = calls_with_env(ent, lambda c: call_name(c) == 'sys.exit', stmts=tail)
-    good = [e for e in exits if gate and flow.implies(e[2], ('atom', gate[0]))[0] and e[0].args and isinstance(try_fold(e[0].args[0]), int)
+    good = [e for e in exits if flow.equivalent(norm(e[2]), flow.parse_formula('LEFT'))[0] and e[0].args and isinstance(try_fold(e[0].args[0]), int)
             and try_fold(e[0].args[0]) != 0]
-    ifs = [n for n in walk_local(ent) if isinstance(n, ast.If) and 'leftover' in u(n.test)]
-    arm_ok = False
-    if ifs and good:
-        arm = ifs[0].body
-        arm_ok = any(isinstance(s, ast.Expr) and s.value is good[0][0] for s in arm) and not any(isinstance(n, ast.Return) for s in arm for n in ast.walk(s))
-    ck.ob('MPT-gate', cli.loc(ent), bool(good) and arm_ok, 'with leftover warnings the run ends in sys.exit(<non-zero>) without finalising', key='MPT-gate|exit')
-    # nothing after the gate writes un-deferred; all writers before it are deferred (sweep) -- and the gate is the last thing entry does
-    gate_if = ifs[0] if ifs else None
-    ck.ob('MPT-gate', cli.loc(ent), gate_if is not None and ent.body[-1] is gate_if, 'the gate is the last statement of entry()', key='MPT-gate|last')
+    before = bool(good) and good[0][1].lineno < found[0][1].lineno
+    ck.ob('MPT-gate', cli.loc(ent), bool(good) and before, 'with leftover warnings the run ends in sys.exit(<non-zero>) before the finalisation could be reached', key='MPT-gate|exit')
+    # after the count, entry() only branches on it: nothing that can still log a warning runs between the count and the decision
+    rest = tail[1:]
+    only_gate = bool(rest) and all(isinstance(s_, ast.If) and flow.atoms_of(norm(flow.to_formula(s_.test, {u(ent.body[start].targets[0]): ent.body[start].value}))) == {'LEFT'}
+                                   for s_ in rest)
+    ck.ob('MPT-gate', cli.loc(ent), only_gate, 'the leftover warnings are counted last: after the count entry() only branches on it, so nothing that can still log runs in between',
+          key='MPT-gate|count-last')
     # COUNTER wiring
     consts = cli.constants
     ok = 'COUNTER' in consts and call_name(consts['COUNTER']) == 'CountingHandler'
